@@ -43,6 +43,7 @@ theorem C20_header (hist : List Response) (host client : Str) :
     cookieHeader (jarOf (parsed hist)) host client =
       Spec.Cookie.header (getPairs (jarOf (parsed hist)) host) client := by
   unfold cookieHeader Spec.Cookie.header Model.Cookie.get renderPairs Spec.Cookie.render
+  rw [cookie_shape.2]
   congr 1
   simp only [List.filter_cons, List.filter_nil]
   by_cases h1 : (joinStr "; ".toList (List.map (fun nv => nv.1 ++ '=' :: nv.2)
